@@ -147,7 +147,7 @@ def gen_two_routes(rng):
         if kind == "local": A.append(x); B.append("cb " + x)
         elif kind == "net": A.append("net " + x); B.append("cb net " + x)
         else: A.append(f"crash {x}"); B.append(f"cb crash {x}")
-    A.append(run); B.append(run)
+    A.append(run); B += ["refenum", run]
     return A, B
 
 
@@ -169,6 +169,32 @@ def run_two_routes(v, tier, seed, name="routes", n_quick=200, n_thorough=3000):
         ncmp += 1
         sa = set(nproj(l) for l in ia if l.startswith("E ")); sb = set(nproj(l) for l in ib if l.startswith("E "))
         ka, kb = ra[0].split()[2], rb[0].split()[2]
+        if ka == kb == "result=ok" and sa < sb and mc_checks.has_finding(v.pid, "D15-snapshot-timer-order"):
+            # the snapshot fixes the real firing order of timers that were set at one instant with different delays; the
+            # callback route cannot know they were set at the same instant and also explores the other orders
+            ma, mb = model.get(f"a{i}", []), model.get(f"b{i}", [])
+            if [l for l in ia if l.startswith("E ")] == [l for l in ma if l.startswith("E ")] and \
+               [l for l in ib if l.startswith("E ")] == [l for l in mb if l.startswith("E ")]:
+                v.known_finding("D15-snapshot-timer-order: after a prefix that sets several timers of one process with different delays at one "
+                                "instant, exploring from the snapshot visits a strict subset (the real firing order) of what the callback route visits")
+                cov_known = v.coverage.setdefault(name, {}); cov_known["route_known_finding_D15"] = cov_known.get("route_known_finding_D15", 0) + 1
+                continue
+        if ka == kb == "result=ok" and sa != sb:
+            # finding D1 lives in the callback route only (the simulator cancels an overridden timer): if the callback route follows
+            # the defective model variant exactly and its contract-conforming variant agrees with the snapshot route, the
+            # difference is D1, which is not a statement about the snapshot
+            mb = model.get(f"b{i}", [])
+            vb = set(nproj(l[2:]) for l in mb if l.startswith("V "))
+            if [l for l in ib if l.startswith("E ")] == [l for l in mb if l.startswith("E ")] and vb != sb:
+                cov_d1 = v.coverage.setdefault(name, {})
+                if vb == sa:
+                    cov_d1["route_pairs_skipped_D1"] = cov_d1.get("route_pairs_skipped_D1", 0) + 1
+                    continue
+                if sa < vb and mc_checks.has_finding(v.pid, "D15-snapshot-timer-order"):
+                    cov_d1["route_known_finding_D15"] = cov_d1.get("route_known_finding_D15", 0) + 1
+                    v.known_finding("D15-snapshot-timer-order: after a prefix that sets several timers of one process with different delays at one "
+                                    "instant, exploring from the snapshot visits a strict subset (the real firing order) of what the callback route visits")
+                    continue
         if ka != kb or (ka == "result=ok" and sa != sb):
             v.violation(f"{name}-{i}.txt",
                         f"# property {v.pid}: exploring from a snapshot taken after the prefix and performing the prefix in the callback differ\n"
